@@ -159,7 +159,14 @@ def kernel(sx, shape, bsel, h, eps_sym=False):
         sx.observe('alpha', alphas)
 
 
-def plan(sx, shape, h, nexp):
+def _belief(sx, sl, L, b, permuted):
+    """a Belief object for b; permuted: its states listed in another order (rotated) than the model's state list"""
+    from msdm.core.pomdp.tabularpomdp import Belief
+    order = (sl[1:] + sl[:1]) if permuted else sl
+    return Belief(tuple(order), tuple(sx.const(b[L.index(s_)]) for s_ in order))
+
+
+def plan(sx, shape, h, nexp, permuted=False):
     """PointBasedValueIteration.plan_on end to end + the alpha-vector policy"""
     sh = PSH[shape]
     L, AL, OL = sh.slabels, sh.alabels, sh.olabels
@@ -176,7 +183,7 @@ def plan(sx, shape, h, nexp):
         memo = {}
         tests = [belief_menu(sh, 0)[0], belief_menu(sh, 2)[1]] if sx.tier == 'quick' else belief_menu(sh, 1) + belief_menu(sh, 2)[1:2]
         for bi, b in enumerate(tests):
-            bel = Belief(tuple(sl), tuple(sx.const(b[L.index(s_)]) for s_ in sl))
+            bel = _belief(sx, sl, L, b, permuted)
             v = res.policy.value(bel)
             # linearise: which alpha vector attains the maximum at this belief is decided by forking
             al_ = rnp.asarray(res.alpha_vectors)
@@ -205,7 +212,7 @@ def plan(sx, shape, h, nexp):
         sx.observe('n_beliefs', len(res.belief_set))
 
 
-def qmdp(sx, shape, h):
+def qmdp(sx, shape, h, permuted=False):
     """QMDP action values are the belief-weighted optimal MDP action values; its value never under-estimates the optimum"""
     sh = PSH[shape]
     L, AL, OL = sh.slabels, sh.alabels, sh.olabels
@@ -227,7 +234,7 @@ def qmdp(sx, shape, h):
         tol = 2 * iso / (1 - g)
         memo = {}
         for bi, b in enumerate(belief_menu(sh, 1) + belief_menu(sh, 2)[1:2]):
-            bel = Belief(tuple(sl), tuple(sx.const(b[L.index(s_)]) for s_ in sl))
+            bel = _belief(sx, sl, L, b, permuted)
             for a in range(sh.A):
                 want = ssum(sx.const(b[s]) * (Qs[(s, a)] if s not in absorbing else res.mdp_res.action_value[L[s], AL[a]]) for s in range(sh.S) if b[s] != 0)
                 sx.prove_eq(res.policy.action_value(bel, AL[a]), want, f'qmdp-action-value-is-belief-weighted-mdp-optimum[belief {bi},{a}]', tol=tol)
@@ -309,6 +316,9 @@ def jobs(tier):
                 continue
             yield ('plan', dict(shape=i, h=h, nexp=nexp), dict(o, cost=20))
         yield ('qmdp', dict(shape=i, h=2), dict(o, cost=10))
+        if sh.S >= 2:
+            yield ('qmdp', dict(shape=i, h=2, permuted=True), dict(o, cost=10))
+            yield ('plan', dict(shape=i, h=1, nexp=1, permuted=True), dict(o, cost=20))
     for first, second in [(0, 0), (2, 2), (3, 3)]:
         for order in (0, 1):
             yield ('reuse_planner', dict(first=first, second=second, order=order), o)
